@@ -1,4 +1,4 @@
-import AgModel.Proofs.ParentReady
+import AgModel.Proofs.ParentReadyExact
 /-!
 # C07 — parent-ready (property theorems)
 
@@ -155,5 +155,457 @@ example : announcedBy [(markSkipped · 7), (markSkipped · 6), (markSkipped · 5
 /-- a finalization batch keeps only its highest pair -/
 example : announcedBy [(markSkipped · 4), (markSkipped · 5), (markSkipped · 6), (markSkipped · 7),
       (handleFinalization · ⟨some (3, 9), [(2, 8)], []⟩)] = some [[], [], [], [], [(8, (3, 9))]] := by decide
+
+/-! ## Whole runs: exactness (`ready_iff`), panic-freedom, announcements at most once
+
+Operation sequences over the tracker from `init`, with the ghost history `hist ops` of the marks the tracker
+*accepted* (`Proofs/ParentReadyExact.lean`: a mark for a slot below the root at the time of the call is ignored by the
+code and is not recorded). -/
+
+/-- the operations of `ParentReadyTracker` -/
+inductive Op where
+  | nf (b : Nat × Nat)           -- `mark_notar_fallback`
+  | skip (s : Nat)               -- `mark_skipped`
+  | fin (ev : Finality.Event)    -- `handle_finalization`
+  | prune (r : Nat)              -- `prune`
+  | wait (s : Nat)               -- `wait_for_parent_ready`
+deriving DecidableEq, Repr
+
+/-- the two `assert!`s of `parent_ready_state.rs` -/
+inductive Panic where
+  | readyAssert    -- `add_to_ready`: `assert!(!ready_ids.contains(&id))`
+  | waiterAssert   -- `wait_for_parent_ready`: `assert!(maybe_waiter.is_none())`
+deriving DecidableEq, Repr
+
+/-- one operation: new tracker, announced `(slot, parent)` pairs, wake-ups -/
+def applyOp (t : Tracker) : Op → Except Panic (Tracker × List (Nat × (Nat × Nat)) × List Wake)
+  | .nf b => match markNotarFallback t b with | some r => .ok r | none => .error .readyAssert
+  | .skip s => match markSkipped t s with | some r => .ok r | none => .error .readyAssert
+  | .fin ev => match handleFinalization t ev with | some r => .ok r | none => .error .readyAssert
+  | .prune r => .ok (prune t r, [], [])
+  | .wait s =>
+    match waitForParentReady t s with
+    | .ready t' _ => .ok (t', [], [])
+    | .waiting t' => .ok (t', [], [])
+    | .panic => .error .waiterAssert
+
+/-- tracker, all announcements so far (concatenated, in order), all wake-ups so far -/
+structure RunState where
+  t : Tracker
+  ann : List (Nat × (Nat × Nat))
+  wakes : List Wake
+
+def RunState.step (st : RunState) (op : Op) : Except Panic RunState :=
+  match applyOp st.t op with
+  | .ok (t', a, w) => .ok ⟨t', st.ann ++ a, st.wakes ++ w⟩
+  | .error e => .error e
+
+def runStep (acc : Except Panic RunState) (op : Op) : Except Panic RunState :=
+  match acc with
+  | .ok st => st.step op
+  | .error e => .error e
+
+/-- a run from `ParentReadyTracker::default()` -/
+def run (ops : List Op) : Except Panic RunState := ops.foldl runStep (.ok ⟨init, [], []⟩)
+
+/-- the ghost history, one operation -/
+def Hist.step (h : Hist) : Op → Hist
+  | .nf b => h.nfMark b
+  | .skip s => h.skMark s
+  | .fin ev => h.finMark ev
+  | .prune r => h.pruneTo r
+  | .wait _ => h
+
+/-- the ghost history of a run (a function of the operations alone): accepted marks, root, prune roots -/
+def hist (ops : List Op) : Hist := ops.foldl Hist.step {}
+
+/-- **The premise on pruning** (decidable, on the operation list): prune roots are monotone, and no slot used as a
+    prune root is ever (before or after) *accepted* as a skip mark — unless it is the first slot of a window
+    (then its ready list is retained and the backward walk of `mark_skipped` ends there anyway).
+    The pool only prunes to a finalized slot, and a finalized slot is never skip-certified. -/
+def SafeRun (ops : List Op) : Prop :=
+  (hist ops).mono = true ∧ ∀ r ∈ (hist ops).roots, isWindowStart r = true ∨ r ∉ (hist ops).sk
+
+instance (ops : List Op) : Decidable (SafeRun ops) := by unfold SafeRun; infer_instance
+
+instance (h : Hist) (s : Nat) (b : Nat × Nat) : Decidable (Connected h s b) :=
+  decidable_of_iff (b.1 < s ∧ b ∈ h.nf ∧ ∀ u, u < s → b.1 < u → u ∈ h.sk)
+    ⟨fun ⟨a, c, d⟩ => ⟨a, c, fun u x y => d u y x⟩, fun ⟨a, c, d⟩ => ⟨a, c, fun u x y => d u y x⟩⟩
+
+/-- the slots `wait_for_parent_ready` was called for -/
+def waitSlots (ops : List Op) : List Nat := ops.filterMap (fun | .wait s => some s | _ => none)
+
+/-! ### helper lemmas about runs -/
+
+theorem snoc_induction {α : Type} {P : List α → Prop} (nil : P []) (snoc : ∀ l a, P l → P (l ++ [a])) :
+    ∀ l, P l := by
+  intro l
+  have : ∀ r : List α, P r.reverse := by
+    intro r
+    induction r with
+    | nil => exact nil
+    | cons a r ih => rw [List.reverse_cons]; exact snoc _ _ ih
+  simpa using this l.reverse
+
+theorem hist_snoc (ops : List Op) (op : Op) : hist (ops ++ [op]) = (hist ops).step op := by
+  unfold hist; rw [List.foldl_append]; rfl
+
+theorem run_snoc (ops : List Op) (op : Op) : run (ops ++ [op]) = runStep (run ops) op := by
+  unfold run; rw [List.foldl_append]; rfl
+
+theorem nfMark_same (h : Hist) (b : Nat × Nat) :
+    (h.nfMark b).root = h.root ∧ (h.nfMark b).sk = h.sk ∧ (h.nfMark b).roots = h.roots ∧ (h.nfMark b).mono = h.mono := by
+  unfold Hist.nfMark; split <;> exact ⟨rfl, rfl, rfl, rfl⟩
+
+theorem skMark_same (h : Hist) (s : Nat) :
+    (h.skMark s).root = h.root ∧ (h.skMark s).roots = h.roots ∧ (h.skMark s).mono = h.mono := by
+  unfold Hist.skMark; split <;> exact ⟨rfl, rfl, rfl⟩
+
+theorem foldl_nfMark_same (bs : List (Nat × Nat)) (h : Hist) :
+    (bs.foldl Hist.nfMark h).root = h.root ∧ (bs.foldl Hist.nfMark h).sk = h.sk ∧
+    (bs.foldl Hist.nfMark h).roots = h.roots ∧ (bs.foldl Hist.nfMark h).mono = h.mono := by
+  induction bs generalizing h with
+  | nil => exact ⟨rfl, rfl, rfl, rfl⟩
+  | cons b bs ih =>
+    rw [List.foldl_cons]
+    obtain ⟨a1, a2, a3, a4⟩ := ih (h.nfMark b)
+    obtain ⟨b1, b2, b3, b4⟩ := nfMark_same h b
+    exact ⟨a1.trans b1, a2.trans b2, a3.trans b3, a4.trans b4⟩
+
+theorem foldl_skMark_same (ss : List Nat) (h : Hist) :
+    (ss.foldl Hist.skMark h).root = h.root ∧ (ss.foldl Hist.skMark h).roots = h.roots ∧
+    (ss.foldl Hist.skMark h).mono = h.mono := by
+  induction ss generalizing h with
+  | nil => exact ⟨rfl, rfl, rfl⟩
+  | cons b bs ih =>
+    rw [List.foldl_cons]
+    obtain ⟨a1, a3, a4⟩ := ih (h.skMark b)
+    obtain ⟨b1, b3, b4⟩ := skMark_same h b
+    exact ⟨a1.trans b1, a3.trans b3, a4.trans b4⟩
+
+theorem finMark_same (h : Hist) (ev : Finality.Event) :
+    (h.finMark ev).root = h.root ∧ (h.finMark ev).roots = h.roots ∧ (h.finMark ev).mono = h.mono := by
+  unfold Hist.finMark
+  obtain ⟨a1, a3, a4⟩ := foldl_skMark_same ev.implSkipped ((ev.finalized.toList ++ ev.implFinalized).foldl Hist.nfMark h)
+  obtain ⟨b1, _, b3, b4⟩ := foldl_nfMark_same (ev.finalized.toList ++ ev.implFinalized) h
+  exact ⟨a1.trans b1, a3.trans b3, a4.trans b4⟩
+
+/-- the history only grows -/
+theorem step_mono (h : Hist) (op : Op) :
+    (∀ x, x ∈ h.sk → x ∈ (h.step op).sk) ∧ (∀ r, r ∈ h.roots → r ∈ (h.step op).roots) ∧
+    ((h.step op).mono = true → h.mono = true) := by
+  cases op with
+  | nf b => obtain ⟨_, a2, a3, a4⟩ := nfMark_same h b; exact ⟨fun x hx => by rw [Hist.step, a2]; exact hx,
+      fun r hr => by rw [Hist.step, a3]; exact hr, fun hm => by rw [Hist.step, a4] at hm; exact hm⟩
+  | skip s => obtain ⟨_, a3, a4⟩ := skMark_same h s; exact ⟨fun x hx => skMark_sk_mono h s hx,
+      fun r hr => by rw [Hist.step, a3]; exact hr, fun hm => by rw [Hist.step, a4] at hm; exact hm⟩
+  | fin ev =>
+    obtain ⟨_, a3, a4⟩ := finMark_same h ev
+    refine ⟨fun x hx => ?_, fun r hr => by rw [Hist.step, a3]; exact hr, fun hm => by rw [Hist.step, a4] at hm; exact hm⟩
+    exact foldl_skMark_sk_mono _ _ (by rw [foldl_nfMark_sk]; exact hx)
+  | prune r =>
+    refine ⟨fun x hx => hx, fun r hr => List.mem_cons_of_mem _ hr, fun hm => ?_⟩
+    simp only [Hist.step, Hist.pruneTo, Bool.and_eq_true] at hm
+    exact hm.1
+  | wait s => exact ⟨fun x hx => hx, fun r hr => hr, fun hm => hm⟩
+
+/-- the premise is prefix-closed -/
+theorem SafeRun.prefix {ops : List Op} {op : Op} (h : SafeRun (ops ++ [op])) : SafeRun ops := by
+  unfold SafeRun at *
+  rw [hist_snoc] at h
+  obtain ⟨m1, m2, m3⟩ := step_mono (hist ops) op
+  refine ⟨m3 h.1, fun r hr => ?_⟩
+  rcases h.2 r (m2 r hr) with a | a
+  · exact Or.inl a
+  · exact Or.inr (fun hm => a (m1 r hm))
+
+theorem root_mem (ops : List Op) : (hist ops).root = 0 ∨ (hist ops).root ∈ (hist ops).roots := by
+  induction ops using snoc_induction with
+  | nil => exact Or.inl rfl
+  | snoc ops op ih =>
+    rw [hist_snoc]
+    cases op with
+    | nf b => obtain ⟨a1, _, a3, _⟩ := nfMark_same (hist ops) b; rw [Hist.step, a1, a3]; exact ih
+    | skip s => obtain ⟨a1, a3, _⟩ := skMark_same (hist ops) s; rw [Hist.step, a1, a3]; exact ih
+    | fin ev => obtain ⟨a1, a3, _⟩ := finMark_same (hist ops) ev; rw [Hist.step, a1, a3]; exact ih
+    | prune r => exact Or.inr List.mem_cons_self
+    | wait s => exact ih
+
+theorem SafeRun.rootOK {ops : List Op} (h : SafeRun ops) : RootOK (hist ops) := by
+  rcases root_mem ops with e | hm
+  · left; rw [e]; decide
+  · exact h.2 _ hm
+
+/-- what the induction over a run carries -/
+structure RInv (ops : List Op) (st : RunState) : Prop where
+  inv : Inv (hist ops) st.t
+  annNodup : st.ann.Nodup
+  annReady : ∀ s b, (s, b) ∈ st.ann → (hist ops).root ≤ s → b ∈ (get st.t s).ready
+  waited : ∀ s, (get st.t s).waiter = true → s ∈ waitSlots ops
+
+theorem waitSlots_snoc (ops : List Op) (op : Op) :
+    waitSlots (ops ++ [op]) = waitSlots ops ++ (match op with | .wait s => [s] | _ => []) := by
+  unfold waitSlots
+  rw [List.filterMap_append]
+  cases op <;> rfl
+
+/-- a (composite) mark keeps the run invariant -/
+theorem rinv_mark {ops : List Op} {op : Op} {st : RunState} (ri : RInv ops st) {t' : Tracker}
+    {a : List (Nat × (Nat × Nat))} {w : List Wake}
+    (hinv : Inv (hist (ops ++ [op])) t') (hstep : Step st.t t' a w) (hroot : (hist (ops ++ [op])).root = (hist ops).root) :
+    RInv (ops ++ [op]) ⟨t', st.ann ++ a, st.wakes ++ w⟩ := by
+  refine ⟨hinv, ?_, ?_, ?_⟩
+  · show (st.ann ++ a).Nodup
+    rw [List.nodup_append]
+    refine ⟨ri.annNodup, hstep.annNodup, ?_⟩
+    intro x hx y hy e
+    subst e
+    obtain ⟨r, _, m⟩ := hstep.annNew x.1 x.2 hy
+    rw [ri.inv.root] at r
+    exact m (ri.annReady x.1 x.2 hx r)
+  · intro s b hm hs
+    rw [hroot] at hs
+    obtain ⟨l, hl⟩ := hstep.ext s
+    rcases List.mem_append.mp hm with hm | hm
+    · show b ∈ (get t' s).ready
+      rw [hl]; exact List.mem_append_left _ (ri.annReady s b hm hs)
+    · exact (hstep.annNew s b hm).2.1
+  · intro s hs
+    rw [waitSlots_snoc]
+    exact List.mem_append_left _ (ri.waited s ((hstep.waiter s).mp hs).1)
+
+/-- **Every run that respects the premise keeps the invariant** (in particular never hits the `assert!` of
+    `add_to_ready`); the only possible panic is a second waiter for a slot. -/
+theorem reach (ops : List Op) (hs : SafeRun ops) :
+    (∃ st, run ops = .ok st ∧ RInv ops st) ∨ (run ops = .error .waiterAssert ∧ ¬ (waitSlots ops).Nodup) := by
+  induction ops using snoc_induction with
+  | nil =>
+    left
+    refine ⟨⟨init, [], []⟩, rfl, inv_init, List.nodup_nil, fun _ _ h => (by cases h), ?_⟩
+    intro s hw
+    have := inv_init.waiter s
+    simp only [get, init] at hw
+    split at hw <;> cases hw
+  | snoc ops op ih =>
+    rcases ih hs.prefix with ⟨st, hrun, ri⟩ | ⟨herr, hnd⟩
+    · rw [run_snoc, hrun]
+      have hok := hs.rootOK
+      rw [hist_snoc] at hok
+      cases op with
+      | nf b =>
+        obtain ⟨t', a, w, e, inv', stp, _⟩ := nf_step ri.inv b
+        left
+        refine ⟨⟨t', st.ann ++ a, st.wakes ++ w⟩, by simp only [runStep, RunState.step, applyOp, e], ?_⟩
+        exact rinv_mark ri (by rw [hist_snoc]; exact inv') stp (by rw [hist_snoc]; exact (nfMark_same _ b).1)
+      | skip s =>
+        obtain ⟨t', a, w, e, inv', stp, _⟩ := skip_step ri.inv s hok
+        left
+        refine ⟨⟨t', st.ann ++ a, st.wakes ++ w⟩, by simp only [runStep, RunState.step, applyOp, e], ?_⟩
+        exact rinv_mark ri (by rw [hist_snoc]; exact inv') stp (by rw [hist_snoc]; exact (skMark_same _ s).1)
+      | fin ev =>
+        obtain ⟨t', a, w, e, inv', stp⟩ := fin_step ri.inv ev hok
+        left
+        refine ⟨⟨t', st.ann ++ a, st.wakes ++ w⟩, by simp only [runStep, RunState.step, applyOp, e], ?_⟩
+        exact rinv_mark ri (by rw [hist_snoc]; exact inv') stp (by rw [hist_snoc]; exact (finMark_same _ ev).1)
+      | prune r =>
+        left
+        have hmono : (hist ops).root ≤ r := by
+          have := hs.1
+          rw [hist_snoc] at this
+          simp only [Hist.step, Hist.pruneTo, Bool.and_eq_true, decide_eq_true_eq] at this
+          exact this.2
+        refine ⟨⟨prune st.t r, st.ann ++ [], st.wakes ++ []⟩, rfl, ?_, ?_, ?_, ?_⟩
+        · rw [hist_snoc]; exact prune_step ri.inv hmono
+        · show (st.ann ++ []).Nodup
+          rw [List.append_nil]; exact ri.annNodup
+        · intro s b hm hr
+          rw [hist_snoc] at hr
+          have hr' : r ≤ s := hr
+          show b ∈ (get (prune st.t r) s).ready
+          rw [get_prune, if_neg (by omega)]
+          exact ri.annReady s b (by simpa using hm) (by omega)
+        · intro s hw
+          rw [waitSlots_snoc]
+          apply List.mem_append_left
+          change (get (prune st.t r) s).waiter = true at hw
+          rw [get_prune] at hw
+          split at hw
+          · cases hw
+          · exact ri.waited s hw
+      | wait s =>
+        have hw := wait_step ri.inv s
+        simp only [runStep, RunState.step, applyOp]
+        cases hres : waitForParentReady st.t s with
+        | ready t' b =>
+          rw [hres] at hw
+          obtain ⟨inv', _, hrd, hwt, _⟩ := hw
+          left
+          refine ⟨⟨t', st.ann ++ [], st.wakes ++ []⟩, rfl, by rw [hist_snoc]; exact inv', ?_, ?_, ?_⟩
+          · show (st.ann ++ []).Nodup
+            rw [List.append_nil]; exact ri.annNodup
+          · intro x p hm hr
+            rw [hist_snoc] at hr
+            show p ∈ (get t' x).ready
+            rw [hrd]; exact ri.annReady x p (by simpa using hm) hr
+          · intro x hx
+            change (get t' x).waiter = true at hx
+            rw [hwt] at hx
+            rw [waitSlots_snoc]; exact List.mem_append_left _ (ri.waited x hx)
+        | waiting t' =>
+          rw [hres] at hw
+          obtain ⟨inv', _, hrd, hwt, _⟩ := hw
+          left
+          refine ⟨⟨t', st.ann ++ [], st.wakes ++ []⟩, rfl, by rw [hist_snoc]; exact inv', ?_, ?_, ?_⟩
+          · show (st.ann ++ []).Nodup
+            rw [List.append_nil]; exact ri.annNodup
+          · intro x p hm hr
+            rw [hist_snoc] at hr
+            show p ∈ (get t' x).ready
+            rw [hrd]; exact ri.annReady x p (by simpa using hm) hr
+          · intro x hx
+            change (get t' x).waiter = true at hx
+            rw [waitSlots_snoc]
+            rcases (hwt x).mp hx with e | hx
+            · subst e; exact List.mem_append_right _ (List.mem_singleton.mpr rfl)
+            · exact List.mem_append_left _ (ri.waited x hx)
+        | panic =>
+          rw [hres] at hw
+          right
+          refine ⟨rfl, ?_⟩
+          rw [waitSlots_snoc]
+          intro hnd
+          have := (List.nodup_append.mp hnd).2.2 s (ri.waited s hw.1) s (List.mem_singleton.mpr rfl)
+          exact this rfl
+    · right
+      rw [run_snoc, herr]
+      refine ⟨rfl, ?_⟩
+      rw [waitSlots_snoc]
+      intro h
+      exact hnd (List.nodup_append.mp h).1
+
+/-! ### the property theorems over whole runs -/
+
+/-- **`ready_iff` (exactness).**  In every state reached by a run that respects the premise on pruning, for every first
+    slot `s` of a leader window at or above the root and every block `b = (ps, h)`:
+    `b` is answered by `parents_ready(s)` **iff** `ps < s`, `b` was accepted as notar-fallback / finalized mark (genesis
+    counts) and every slot strictly between `ps` and `s` was accepted as skip mark — whatever the order of arrival,
+    however marks, finalization events, waits and prunes are interleaved. -/
+theorem ready_iff {ops : List Op} {st : RunState} (hs : SafeRun ops) (hrun : run ops = .ok st)
+    {s : Nat} (hroot : (hist ops).root ≤ s) (hws : isWindowStart s = true) (b : Nat × Nat) :
+    b ∈ parentsReady st.t s ↔ b.1 < s ∧ b ∈ (hist ops).nf ∧ ∀ u, b.1 < u → u < s → u ∈ (hist ops).sk := by
+  rcases reach ops hs with ⟨st', hrun', ri⟩ | ⟨herr, _⟩
+  · rw [hrun] at hrun'; cases hrun'
+    rw [parentsReady_eq_get, ri.inv.ready s b hroot]
+    exact ⟨fun h => h.2, fun h => ⟨hws, h⟩⟩
+  · rw [hrun] at herr; cases herr
+
+/-- … and slots that are not the first of a window, and pruned slots, have no ready parents. -/
+theorem ready_only_for_live_window_starts {ops : List Op} {st : RunState} (hs : SafeRun ops) (hrun : run ops = .ok st)
+    {s : Nat} (h : isWindowStart s = false ∨ s < (hist ops).root) : parentsReady st.t s = [] := by
+  rcases reach ops hs with ⟨st', hrun', ri⟩ | ⟨herr, _⟩
+  · rw [hrun] at hrun'; cases hrun'
+    rw [parentsReady_eq_get]
+    by_cases hr : s < (hist ops).root
+    · exact ri.inv.low s hr
+    · rcases h with h | h
+      · apply List.eq_nil_iff_forall_not_mem.mpr
+        intro p hp
+        have := ((ri.inv.ready s p (by omega)).mp hp).1
+        rw [h] at this; cases this
+      · exact absurd h hr
+  · rw [hrun] at herr; cases herr
+
+/-- the tracker's root is the last prune root -/
+theorem run_root {ops : List Op} {st : RunState} (hs : SafeRun ops) (hrun : run ops = .ok st) :
+    st.t.root = (hist ops).root := by
+  rcases reach ops hs with ⟨st', hrun', ri⟩ | ⟨herr, _⟩
+  · rw [hrun] at hrun'; cases hrun'; exact ri.inv.root
+  · rw [hrun] at herr; cases herr
+
+/-- **No panic in `add_to_ready`**: no operation of any run that respects the premise hits
+    `assert!(!ready_ids.contains(&id))` (nor runs a forward loop out of fuel: `fwd_exact` shows the loops end by
+    `break`). -/
+theorem run_never_panics {ops : List Op} (hs : SafeRun ops) : run ops ≠ .error .readyAssert := by
+  rcases reach ops hs with ⟨st', hrun', _⟩ | ⟨herr, _⟩
+  · rw [hrun']; intro h; cases h
+  · rw [herr]; intro h; cases h
+
+/-- … and when `wait_for_parent_ready` is called at most once per slot (the block producer waits once per window) no
+    operation panics at all. -/
+theorem run_ok_of_single_waits {ops : List Op} (hs : SafeRun ops) (hw : (waitSlots ops).Nodup) :
+    ∃ st, run ops = .ok st := by
+  rcases reach ops hs with ⟨st', hrun', _⟩ | ⟨_, hnd⟩
+  · exact ⟨st', hrun'⟩
+  · exact absurd hw hnd
+
+/-- **Each `(s, b)` pair is announced at most once over a whole run**: the concatenation of the announcement lists of
+    all operations (certificate paths and finalization batches; pruning in between) has no duplicate. -/
+theorem announced_once {ops : List Op} {st : RunState} (hs : SafeRun ops) (hrun : run ops = .ok st) : st.ann.Nodup := by
+  rcases reach ops hs with ⟨st', hrun', ri⟩ | ⟨herr, _⟩
+  · rw [hrun] at hrun'; cases hrun'; exact ri.annNodup
+  · rw [hrun] at herr; cases herr
+
+/-- … and an announced pair stays answered by the query until its slot is pruned. -/
+theorem announced_stays_ready {ops : List Op} {st : RunState} (hs : SafeRun ops) (hrun : run ops = .ok st)
+    {s : Nat} {b : Nat × Nat} (ha : (s, b) ∈ st.ann) (hroot : (hist ops).root ≤ s) : b ∈ parentsReady st.t s := by
+  rcases reach ops hs with ⟨st', hrun', ri⟩ | ⟨herr, _⟩
+  · rw [hrun] at hrun'; cases hrun'; rw [parentsReady_eq_get]; exact ri.annReady s b ha hroot
+  · rw [hrun] at herr; cases herr
+
+/-- **Announcements are complete on the certificate paths**: after any run, `mark_notar_fallback` / `mark_skipped`
+    announce *exactly* the pairs that enter a ready list in that very step.  (`handle_finalization` deliberately
+    announces only one highest-slot pair of its batch — `finalization_announces_highest` — so there only `⊆` holds:
+    `announce_subset_query_finalization`.) -/
+theorem announce_exact_on_certificate_paths {ops : List Op} {st : RunState} {op : Op}
+    (hs : SafeRun (ops ++ [op])) (hrun : run ops = .ok st) (hop : (∃ b, op = .nf b) ∨ (∃ s, op = .skip s)) :
+    ∃ t' ann w, applyOp st.t op = .ok (t', ann, w) ∧
+      ∀ s p, (s, p) ∈ ann ↔ p ∈ parentsReady t' s ∧ p ∉ parentsReady st.t s := by
+  rcases reach ops hs.prefix with ⟨st', hrun', ri⟩ | ⟨herr, _⟩
+  · rw [hrun] at hrun'; cases hrun'
+    have hok := hs.rootOK
+    rw [hist_snoc] at hok
+    rcases hop with ⟨b, rfl⟩ | ⟨ms, rfl⟩
+    · obtain ⟨t', a, w, e, _, stp, hex⟩ := nf_step ri.inv b
+      refine ⟨t', a, w, by simp only [applyOp, e], fun s p => ?_⟩
+      rw [parentsReady_eq_get, parentsReady_eq_get]
+      exact ⟨fun h => (stp.annNew s p h).2, fun h => hex s p h.1 h.2⟩
+    · obtain ⟨t', a, w, e, _, stp, hex⟩ := skip_step ri.inv ms hok
+      refine ⟨t', a, w, by simp only [applyOp, e], fun s p => ?_⟩
+      rw [parentsReady_eq_get, parentsReady_eq_get]
+      exact ⟨fun h => (stp.annNew s p h).2, fun h => hex s p h.1 h.2⟩
+  · rw [hrun] at herr; cases herr
+
+/-- A registered waiter means that no parent is ready for its slot yet. -/
+theorem waiter_means_not_ready {ops : List Op} {st : RunState} (hs : SafeRun ops) (hrun : run ops = .ok st)
+    {s : Nat} (hw : (get st.t s).waiter = true) : parentsReady st.t s = [] := by
+  rcases reach ops hs with ⟨st', hrun', ri⟩ | ⟨herr, _⟩
+  · rw [hrun] at hrun'; cases hrun'; rw [parentsReady_eq_get]; exact ri.inv.waiter s hw
+  · rw [hrun] at herr; cases herr
+
+/-- **A waiter registered for `s` is woken exactly by the first parent that becomes ready for `s`**: after any run, a mark
+    operation (certificate or finalization batch) sends `b` to the waiter of `s` iff a waiter is registered for `s` and
+    `b` is the first entry of the ready list of `s` afterwards (the list was empty before: `waiter_means_not_ready`);
+    the waiter stays registered exactly when the list is still empty. -/
+theorem waiter_woken_by_first_ready {ops : List Op} {st : RunState} {op : Op}
+    (hs : SafeRun (ops ++ [op])) (hrun : run ops = .ok st)
+    (hop : (∃ b, op = .nf b) ∨ (∃ s, op = .skip s) ∨ (∃ ev, op = .fin ev)) :
+    ∃ t' ann w, applyOp st.t op = .ok (t', ann, w) ∧
+      (∀ s b, (s, b) ∈ w ↔ (get st.t s).waiter = true ∧ (parentsReady t' s).head? = some b) ∧
+      (∀ s, (get t' s).waiter = true ↔ (get st.t s).waiter = true ∧ parentsReady t' s = []) := by
+  rcases reach ops hs.prefix with ⟨st', hrun', ri⟩ | ⟨herr, _⟩
+  · rw [hrun] at hrun'; cases hrun'
+    have hok := hs.rootOK
+    rw [hist_snoc] at hok
+    rcases hop with ⟨b, rfl⟩ | ⟨ms, rfl⟩ | ⟨ev, rfl⟩
+    · obtain ⟨t', a, w, e, _, stp, _⟩ := nf_step ri.inv b
+      exact ⟨t', a, w, by simp only [applyOp, e], fun s p => by rw [parentsReady_eq_get]; exact stp.wake s p,
+        fun s => by rw [parentsReady_eq_get]; exact stp.waiter s⟩
+    · obtain ⟨t', a, w, e, _, stp, _⟩ := skip_step ri.inv ms hok
+      exact ⟨t', a, w, by simp only [applyOp, e], fun s p => by rw [parentsReady_eq_get]; exact stp.wake s p,
+        fun s => by rw [parentsReady_eq_get]; exact stp.waiter s⟩
+    · obtain ⟨t', a, w, e, _, stp⟩ := fin_step ri.inv ev hok
+      exact ⟨t', a, w, by simp only [applyOp, e], fun s p => by rw [parentsReady_eq_get]; exact stp.wake s p,
+        fun s => by rw [parentsReady_eq_get]; exact stp.waiter s⟩
+  · rw [hrun] at herr; cases herr
 
 end AgModel.ParentReady
